@@ -24,6 +24,7 @@ char *__real_strdup(const char *);
 
 static int trk_on;
 static long trk_count, trk_fail_at = -1, trk_live, trk_peak_bytes, trk_bytes;
+static long trk_fresh_bytes;      // bytes obtained by malloc/calloc (not realloc): what a "copy the whole block on every extension" costs
 #define TRK_MAX 65536
 static void *trk_ptr[TRK_MAX];
 static size_t trk_size[TRK_MAX];
@@ -62,14 +63,14 @@ void *__wrap_malloc(size_t n)
 	void *p;
 	if (!trk_on) return __real_malloc(n);
 	if (trk_should_fail()) return NULL;
-	p = __real_malloc(n); trk_add(p, n); return p;
+	p = __real_malloc(n); trk_add(p, n); trk_fresh_bytes += (long) n; return p;
 }
 void *__wrap_calloc(size_t a, size_t b)
 {
 	void *p;
 	if (!trk_on) return __real_calloc(a, b);
 	if (trk_should_fail()) return NULL;
-	p = __real_calloc(a, b); trk_add(p, a * b); return p;
+	p = __real_calloc(a, b); trk_add(p, a * b); trk_fresh_bytes += (long) (a * b); return p;
 }
 void *__wrap_realloc(void *q, size_t n)
 {
@@ -112,26 +113,41 @@ int lha_arch_is_symlink(char *p) { (void) p; return fs_component_symlink; }
 // the output file is a cookie stream: the harness sees whether the library closed it (a handle the library opened must be closed
 // by the library on every path) and collects what was written
 static int fs_open_handles;
+static size_t fs_pos;      // the stream behaves like a regular file: it can be positioned; writing beyond the end leaves a hole of zeros,
+                           // positioning beyond the end without writing does NOT lengthen the file
 static ssize_t fsck_write(void *cookie, const char *buf, size_t n)
 {
 	int was = trk_on;
 	(void) cookie;
 	trk_on = 0;
-	fs_buf = realloc(fs_buf, fs_len + n + 1);
-	memcpy(fs_buf + fs_len, buf, n);
-	fs_len += n;
+	if (fs_pos + n > fs_len) {
+		fs_buf = realloc(fs_buf, fs_pos + n + 1);
+		if (fs_pos > fs_len) memset(fs_buf + fs_len, 0, fs_pos - fs_len);
+		fs_len = fs_pos + n;
+	}
+	memcpy(fs_buf + fs_pos, buf, n);
+	fs_pos += n;
 	trk_on = was;
 	return (ssize_t) n;
+}
+static int fsck_seek(void *cookie, off64_t *off, int whence)
+{
+	off64_t base = whence == SEEK_SET ? 0 : whence == SEEK_CUR ? (off64_t) fs_pos : (off64_t) fs_len;
+	(void) cookie;
+	if (base + *off < 0) return -1;
+	fs_pos = (size_t) (base + *off);
+	*off = (off64_t) fs_pos;
+	return 0;
 }
 static int fsck_close(void *cookie) { (void) cookie; --fs_open_handles; return 0; }
 FILE *lha_arch_fopen(char *filename, int uid, int gid, int perms)
 {
 	int was = trk_on;
-	cookie_io_functions_t io = { NULL, fsck_write, NULL, fsck_close };
+	cookie_io_functions_t io = { NULL, fsck_write, fsck_seek, fsck_close };
 	(void) filename; (void) uid; (void) gid; (void) perms;
 	if (!fs_next_ok) return NULL;
 	trk_on = 0;
-	fs_buf = malloc(1); fs_len = 0;
+	fs_buf = malloc(1); fs_len = 0; fs_pos = 0;
 	fs_file = fopencookie(NULL, "w", io);
 	if (fs_file != NULL) ++fs_open_handles;
 	trk_on = was;
@@ -302,7 +318,7 @@ int vh_ops_reader(int argc, char **argv)
 		RCtx c;
 		char *ops, *tok, *save;
 		int first = 1, ok;
-		trk_count = 0; trk_live = 0; trk_n = 0; trk_bytes = 0; trk_peak_bytes = 0;
+		trk_count = 0; trk_live = 0; trk_n = 0; trk_bytes = 0; trk_peak_bytes = 0; trk_fresh_bytes = 0;
 		trk_fail_at = atol(argv[3]);
 		ok = rctx_open(&c, argv[1], argv[2], argv[5]);
 		if (ok == 0) return 0;
@@ -322,7 +338,7 @@ int vh_ops_reader(int argc, char **argv)
 			unsigned long reads, moved;
 			rctx_close(&c);
 			reads = c.cb.reads; moved = c.cb.moved;
-			vh_out(" live=%ld allocs=%ld peak=%ld", trk_live, trk_count, trk_peak_bytes);
+			vh_out(" live=%ld allocs=%ld peak=%ld fresh=%ld", trk_live, trk_count, trk_peak_bytes, trk_fresh_bytes);
 			if (is_cb) vh_out(" reads=%lu moved=%lu", reads, moved);
 		}
 		return 1;
@@ -335,7 +351,7 @@ int vh_ops_reader(int argc, char **argv)
 		char *ops, *tok, *save;
 		int first = 1;
 		long long gap = atoll(argv[2]);
-		trk_count = 0; trk_live = 0; trk_n = 0; trk_bytes = 0; trk_peak_bytes = 0; trk_fail_at = -1;
+		trk_count = 0; trk_live = 0; trk_n = 0; trk_bytes = 0; trk_peak_bytes = 0; trk_fresh_bytes = 0; trk_fail_at = -1;
 		memset(&c, 0, sizeof(c));
 		c.pipe_child = -1;
 		if (!vh_parse_hex(argv[4], &c.a) || !vh_parse_hex(argv[5], &b2)) return 0;
@@ -371,7 +387,7 @@ int vh_ops_reader(int argc, char **argv)
 		char dir[] = "/tmp/vh-reopen-XXXXXX", path[64], fifo[64];
 		FILE *fh;
 		int round, child = -1;
-		trk_count = 0; trk_live = 0; trk_n = 0; trk_bytes = 0; trk_peak_bytes = 0; trk_fail_at = -1;
+		trk_count = 0; trk_live = 0; trk_n = 0; trk_bytes = 0; trk_peak_bytes = 0; trk_fresh_bytes = 0; trk_fail_at = -1;
 		if (!vh_parse_hex(argv[3], &a)) return 0;
 		if (mkdtemp(dir) == NULL) return 0;
 		snprintf(path, sizeof(path), "%s/a.lzh", dir);
@@ -432,7 +448,7 @@ int vh_ops_reader(int argc, char **argv)
 		char *ops[2], *save[2], *tok[2];
 		const char *il = argv[9];
 		int i, first = 1;
-		trk_count = 0; trk_live = 0; trk_n = 0; trk_bytes = 0; trk_peak_bytes = 0; trk_fail_at = -1;
+		trk_count = 0; trk_live = 0; trk_n = 0; trk_bytes = 0; trk_peak_bytes = 0; trk_fresh_bytes = 0; trk_fail_at = -1;
 		if (rctx_open(&c[0], argv[1], argv[2], argv[4]) <= 0) return 0;
 		if (rctx_open(&c[1], argv[5], argv[6], argv[8]) <= 0) return 0;
 		ops[0] = strdup(argv[3]); ops[1] = strdup(argv[7]);
